@@ -5,6 +5,24 @@ import json, os
 ROOT = os.path.dirname(os.path.dirname(os.path.abspath(__file__)))
 ALL = ["C%02d" % i for i in range(1, 21)]
 CHECKS = {
+  "C05": dict(
+    technique="property-based testing with log invariants (proptest): every Loader::load / ensure_cached call and every Locker call of a build over generated remote + registry worlds and lockfile images is checked against the expected-checksum table",
+    text="Generated worlds: a remote entry module importing remote modules on every load path (static, dynamic, text asset, type-only, redirecting URL, declaration file, http:, UTF-8 BOM, UTF-16 with charset) plus jsr: requirements and https://jsr.io/ URLs of a generated registry (with / without embedded module info and cache image); lockfile entries per URL and per version manifest absent / matching / mismatching; registry files optionally tampered. Oracles: each content-consuming call presents the known checksum; rejected content is never a module, is an integrity error, with exactly one cache-bypassing retry for non-registry URLs and none for registry files; checksummed redirect rejected; new remote modules and manifests recorded once with SHA-256 of the served bytes (or lockfileChecksum); existing entries never overwritten. Exploration only.",
+    design_ref="DESIGN.md §4 C05",
+    note="Trusted: the harness loader's checksum verification (LoaderChecksum::check_source) and call logs; sha2.",
+  ),
+  "C06": dict(
+    technique="exhaustive enumeration of a bounded domain plus property-based testing (proptest) against a reference model of the four-tier selection rule; graph level as a left fold of the model over the import order",
+    text="Function level: JsrPackageVersionResolver::resolve_version vs the stated rule, enumerated completely for all version sets of <= 2 (thorough: 3) versions x yanked x date classes x already-selected sets x cached sets x 7 cut-off/exclusion settings x 15 requirements (millions of evaluations), sampled beyond. Graph level: generated registries, lockfile seeds, cut-off, exclusions, prefer-cached with a cache image, static and dynamic jsr: imports, version tags; mappings, redirects, used yanked packages and error entries must equal the fold of the model. The enumerated sub-space is exhaustive; the rest is exploration.",
+    design_ref="DESIGN.md §4 C06",
+    note="Trusted: deno_semver (parsing, ordering, matches). The model (select_version in engine/src/props/c06.rs) is the property statement transcribed.",
+  ),
+  "C07": dict(
+    technique="property-based testing (proptest) against a reference computation over generated registries: redirects, used exports, per-package dependency sets, package URL round trip",
+    text="Generated registries (package names that are prefixes of one another, prerelease versions, exports as string / map / with non-string values, files importing by relative path, jsr:, npm:, https registry URL, statically / dynamically / as types) and importing programs; for every jsr: specifier the redirect equals package_url(mapping).join(export value) or an UnknownExport error listing exactly the string exports; package_exports and packages_with_deps equal the reference; package_url <-> name@version round-trips and no graph URL is attributed to another package. Exploration only.",
+    design_ref="DESIGN.md §4 C07",
+    note="Trusted: deno_semver specifier parsing; the dependency sets are derived from the graph's recorded dependencies (validated by C01).",
+  ),
   "C01": dict(
     technique="property-based testing against a reference model (proptest): recorded dependencies vs what the structured sources declare; per-entry prediction from the world; model-free closure (nothing unreachable present, nothing reachable absent)",
     text="Worlds are generated as structured sources (the model never parses text). For every built graph: (a) each module's dependency map (text, code/type target, attribute, static-vs-dynamic, import kinds, types dependency, source map) equals engine/src/refmodel.rs under the resolver and graph kind in use; (b) every entry's kind is one the world allows and every redirect is one the loader gave; (c) every entry is reachable from roots/configured imports along followed edges and every followed target has an entry. Exploration only; jsr: specifiers are left to C06/C07.",
